@@ -658,9 +658,17 @@ func runOne(t *testing.T, h history, c *mc.Chooser, o runOpts) (out mc.Outcome) 
 					costs = append(costs, 0)
 				}
 			} else {
-				for i, w := range wopts {
+				// continuing the goroutine the watcher side worked on last is free, switching away from it is a
+				// deviation; when it is gone (it finished), every watcher-side option is free
+				contParked := false
+				for _, w := range wopts {
+					if w.p != nil && w.p == cont {
+						contParked = true
+					}
+				}
+				for _, w := range wopts {
 					opts = append(opts, w)
-					if i == 0 {
+					if !contParked || w.p == cont {
 						costs = append(costs, 0)
 					} else {
 						costs = append(costs, 1)
@@ -694,11 +702,15 @@ func runOne(t *testing.T, h history, c *mc.Chooser, o runOpts) (out mc.Outcome) 
 					inDelay = true
 					devs++
 				}
-				e.mu.Lock()
-				if e.addsDone < 2 {
+				// startup window: Start has not been called yet, or its goroutine is still adding the watches
+				if !started {
 					stepInStartup = true
 				}
-				e.mu.Unlock()
+				for _, p := range ps {
+					if strings.HasPrefix(p.note, siteAdd+"{") {
+						stepInStartup = true
+					}
+				}
 				for _, p := range ps {
 					if p.site == siteBetween {
 						stepDuringLoad = true
@@ -1129,9 +1141,13 @@ func TestCheck(t *testing.T) {
 	var schedules, points, rechecked, pruned, states int64
 	done := 0
 	capped := false
+	only := os.Getenv("C14_ONLY") // debugging: explore only histories whose description contains this text
 	for k, hc := range hists {
 		h := hc.history
 		if k%of != shard {
+			continue
+		}
+		if only != "" && !strings.Contains(h.String(), only) {
 			continue
 		}
 		if time.Now().After(deadline) {
